@@ -170,6 +170,7 @@ def handleAssign (inf : VInfo) (body : Sx) (vecs : List (List VVal)) : String :=
           let cx := inf.ctx
           match genV cx e with
           | .error (.panic site) => "panic " ++ panicCategory site
+          | .error (.diag _) => "generate-error"
           | .error (.unsupported _) => "unsupported"
           | .ok a =>
             let env := inf.env
@@ -205,6 +206,7 @@ def handleVex (vectors ctx ir : String) : String :=
       let cx := inf.ctx
       match genV cx e with
       | .error (.panic site) => "panic " ++ panicCategory site
+      | .error (.diag _) => "generate-error"
       | .error (.unsupported _) => "unsupported"
       | .ok a =>
         let env := inf.env
